@@ -13,11 +13,12 @@ use tokio_util::codec::Decoder;
 use verif_pt::sexp::{Term, run_lines};
 use wire::*;
 
-fn bgp_stream(desc: &CodecDesc, chunks: &[Vec<u8>], full: bool) -> Term {
+/// `bgp` and `xbgp` print the same records; `xbgp` (families whose NLRI decoder is a hypothesis of the theorems)
+/// is impl-only exploration judged by the oracle alone (CONFIG impl_only_re).
+fn bgp_stream(desc: &CodecDesc, chunks: &[Vec<u8>]) -> Term {
     let mut codec = desc.build();
     let mut buf = BytesMut::new();
     let mut recs: Vec<Term> = Vec::new();
-    let mut coarse_ok = true;
     'outer: for ch in chunks {
         buf.extend_from_slice(ch);
         // per-chunk step budget: every successful call must consume >= 19 bytes
@@ -25,30 +26,18 @@ fn bgp_stream(desc: &CodecDesc, chunks: &[Vec<u8>], full: bool) -> Term {
         loop {
             if budget == 0 {
                 recs.push(Term::list(vec![Term::atom("stall")]));
-                coarse_ok = false;
                 break 'outer;
             }
             budget -= 1;
-            let before = buf.len();
-            let declared = if before >= 19 { Some(((buf[16] as usize) << 8) | buf[17] as usize) } else { None };
             match try_parse_step(&mut codec, &mut buf) {
                 Step::Panic => {
                     recs.push(Term::list(vec![Term::atom("panic")]));
-                    coarse_ok = false;
                     break 'outer;
                 }
                 Step::Msg { consumed, rem, msg } => {
-                    if Some(consumed) != declared || consumed < 19 {
-                        coarse_ok = false;
-                    }
                     recs.push(Term::tag("msg", vec![Term::nat(consumed as u64), Term::nat(rem as u64), parsed_t(&msg)]));
                 }
                 Step::More { rem } => {
-                    if let Some(d) = declared {
-                        if d <= before {
-                            coarse_ok = false;
-                        }
-                    }
                     recs.push(Term::tag("more", vec![Term::nat(rem as u64)]));
                     break;
                 }
@@ -62,21 +51,7 @@ fn bgp_stream(desc: &CodecDesc, chunks: &[Vec<u8>], full: bool) -> Term {
             }
         }
     }
-    if full {
-        Term::tag("obs", recs)
-    } else {
-        // exploration of families whose NLRI decoder is a hypothesis of the theorems: only the structural class
-        let has = |name: &str| recs.iter().any(|r| r.head() == Some(name));
-        if has("panic") {
-            Term::tag("x", vec![Term::atom("panic")])
-        } else if has("stall") {
-            Term::tag("x", vec![Term::atom("stall")])
-        } else if !coarse_ok {
-            Term::tag("x", vec![Term::atom("bad-framing")])
-        } else {
-            Term::tag("x", vec![Term::atom("fine")])
-        }
-    }
+    Term::tag("obs", recs)
 }
 
 fn rtr_msg_t(m: &rpki::Message) -> Term {
@@ -112,6 +87,7 @@ fn rtr_msg_t(m: &rpki::Message) -> Term {
         ),
         M::CacheReset => Term::atom("cache-reset"),
         M::ErrorReport { error_code } => Term::tag("error-report", vec![Term::nat(*error_code)]),
+        M::Unsupported { pdu_type } => Term::tag("unsupported", vec![Term::nat(*pdu_type)]),
     }
 }
 
@@ -205,7 +181,7 @@ fn run_case(line: &str) -> String {
             if !desc.distinct() || (full && !desc.all_modelled()) {
                 return bad;
             }
-            bgp_stream(&desc, &chunks, full).to_string()
+            bgp_stream(&desc, &chunks).to_string()
         }
         Some("rtr") => {
             if l.len() != 2 {
@@ -218,7 +194,7 @@ fn run_case(line: &str) -> String {
             if l.len() != 2 {
                 return bad;
             }
-            let Some(b) = l[1].as_bytes() else { return bad };
+            let Some(b) = bytes_of(&l[1]) else { return bad };
             bfd_one(&b).to_string()
         }
         _ => bad,
